@@ -313,10 +313,16 @@ type c03Iso struct {
 	interiorLost     int64
 	// unexported struct fields compared (scalars by value, pointers by nil-ness)
 	unexportedCompared int64
+	// addressable by-value struct locations entered into the judged bijection
+	byValueLocs int64
 	// interior: addresses (in the expected graph) that lie inside a node
 	// struct (Leaf pointers to another node's ID); lets the key say so.
-	interior map[uintptr]bool
-	nextHeld bool // the value walked next is the dynamic value of an interface
+	interior      map[uintptr]bool
+	nextHeld      bool              // the value walked next is the dynamic value of an interface
+	nextSliceElem bool              // the value walked next is an element of a slice
+	viewsMeasured int64             // by-value struct met again through an overlapping slice view (not judged)
+	nextDeref     bool              // the value walked next is the pointee of the pointer just related
+	byValue       map[c03Ident]bool // expected-side identities of by-value struct locations
 }
 
 func newC03Iso() *c03Iso {
@@ -327,6 +333,10 @@ func newC03Iso() *c03Iso {
 func (s *c03Iso) fail(kind, detail string) {
 	if s.err == nil {
 		path := strings.Join(s.path, "")
+		if strings.Contains(path, ".MA[") || strings.Contains(path, ".(map[string][2]*") {
+			// in a value of an array-valued map (map[string][2]*node)
+			kind += "-in-array-valued-map"
+		}
 		if strings.Contains(path, ".Skip") {
 			// the mismatch sits in or below a dials:"-" field (Skip, SkipM, SkipS, SkipAny)
 			kind += "-at-dials-skipped-field"
@@ -365,6 +375,9 @@ func (s *c03Iso) relate(e, a c03Ident, direct bool) bool {
 			s.mapJudged++
 		}
 		suffix := c03KindName(e.kind)
+		if s.byValue[e] {
+			suffix = "pointer-to-by-value-struct"
+		}
 		if prev, ok := s.fwd[e]; ok && prev != a {
 			s.fail("split:"+suffix, fmt.Sprintf("references identical in the input (%s %#x) are distinct in the result (%#x here, %#x at an earlier location)", e.typ, e.addr, a.addr, prev.addr))
 			return false
@@ -411,6 +424,10 @@ func (s *c03Iso) walk(e, a reflect.Value, direct bool) {
 	s.locations++
 	held := s.nextHeld
 	s.nextHeld = false
+	viaDeref := s.nextDeref
+	s.nextDeref = false
+	sliceElem := s.nextSliceElem
+	s.nextSliceElem = false
 	if e.Type() != a.Type() {
 		s.fail("type-mismatch", fmt.Sprintf("expected %s, got %s", e.Type(), a.Type()))
 		return
@@ -429,7 +446,7 @@ func (s *c03Iso) walk(e, a reflect.Value, direct bool) {
 		if !s.relate(ie, ia, direct) {
 			return
 		}
-		s.with("->", func() { s.walk(e.Elem(), a.Elem(), false) })
+		s.with("->", func() { s.nextDeref = true; s.walk(e.Elem(), a.Elem(), false) })
 	case reflect.Map:
 		if e.IsNil() != a.IsNil() {
 			s.fail("nil-mismatch:map", fmt.Sprintf("expected nil=%v, got nil=%v (%s)", e.IsNil(), a.IsNil(), e.Type()))
@@ -481,7 +498,7 @@ func (s *c03Iso) walk(e, a reflect.Value, direct bool) {
 		s.visited[p] = struct{}{}
 		for i := 0; i < e.Len(); i++ {
 			i := i
-			s.with("["+strconv.Itoa(i)+"]", func() { s.walk(e.Index(i), a.Index(i), true) })
+			s.with("["+strconv.Itoa(i)+"]", func() { s.nextSliceElem = true; s.walk(e.Index(i), a.Index(i), true) })
 		}
 	case reflect.Array:
 		for i := 0; i < e.Len(); i++ {
@@ -490,6 +507,39 @@ func (s *c03Iso) walk(e, a reflect.Value, direct bool) {
 		}
 	case reflect.Struct:
 		t := e.Type()
+		if !viaDeref && e.CanAddr() && a.CanAddr() && t.Size() > 0 {
+			// A struct held by value in an addressable place (struct field,
+			// array/slice element, pointee): pointers to it are pointers to
+			// THIS location, so its address takes part in the judged
+			// bijection: a pointer to the expected struct must come out as a
+			// pointer to the struct walked here (cycles stay cycles), and a
+			// pointer to something else must not.
+			pt := reflect.PointerTo(t)
+			ie := c03Ident{kind: 'p', addr: e.Addr().Pointer(), typ: pt}
+			ia := c03Ident{kind: 'p', addr: a.Addr().Pointer(), typ: pt}
+			s.byValueLocs++
+			if prev, ok := s.fwd[ie]; ok && prev != ia && sliceElem && s.byValue[ie] {
+				// the same element met again through another (overlapping)
+				// view of its backing array, whose copy is a separate array:
+				// what copies of overlapping views share is not judged.
+				s.viewsMeasured++
+			} else {
+				if ok && prev != ia {
+					s.fail("split:pointer-to-by-value-struct", fmt.Sprintf("a pointer to this %s (input %#x) met earlier resolves to %#x, not to the struct's own copy at %#x", t, ie.addr, prev.addr, ia.addr))
+					return
+				}
+				if prev, ok := s.rev[ia]; ok && prev != ie {
+					s.fail("merge:pointer-to-by-value-struct", fmt.Sprintf("a pointer met earlier resolves to this %s's copy (%#x) but pointed at %#x, not at the struct (%#x), in the input", t, ia.addr, prev.addr, ie.addr))
+					return
+				}
+				s.fwd[ie] = ia
+				s.rev[ia] = ie
+				if s.byValue == nil {
+					s.byValue = map[c03Ident]bool{}
+				}
+				s.byValue[ie] = true
+			}
+		}
 		for i := 0; i < e.NumField(); i++ {
 			if !t.Field(i).IsExported() {
 				// unexported fields travel with the shallow whole-struct
